@@ -61,4 +61,31 @@ def sizeIsSynth (sd : StructDef) : Bool :=
     | _ => false
   | none => false
 
+/-! ### the two shapes of a per-field test in the generated `Ok()` (`header_generator.py:
+_generate_optimized_ok_method_body`) -/
+
+/-- `ok_method_test`: `if (!has_f().Known()) return false; if (has_f().ValueOrDefault() && !f().Ok())
+return false;` -/
+def naiveOkTest (has : Option Bool) (fieldOk : Bool) : Bool :=
+  match has with
+  | none => false
+  | some false => true
+  | some true => fieldOk
+
+/-- `ok_method_switch_block` restricted to one case: `if (!discrim.Known()) return false;
+switch (discrim) { case label: if (!f().Ok()) return false; break; default: break; }` -/
+def switchOkTest (discrim : Option Val) (label : Int) (fieldOk : Bool) : Bool :=
+  match discrim with
+  | some (.int d) => if d = label then fieldOk else true
+  | _ => false
+
+/-- `_get_switch_candidate`: an equality with exactly one compile-time-constant integer side. -/
+def switchCandidate : Expr → Option (Expr × Int)
+  | .op .eq (.cons a (.cons b .nil)) =>
+    match constInt? a, constInt? b with
+    | some l, none => some (b, l)
+    | none, some l => some (a, l)
+    | _, _ => none
+  | _ => none
+
 end Emboss.View
